@@ -27,3 +27,30 @@ Theorem C03_start_reads_fetched_task : forall sc hc s id n snap s',
             /\ sy_starts s' = (id, n, snap) :: sy_starts s.
 Proof. exact start_requires_accept. Qed.
 Print Assumptions C03_start_reads_fetched_task.
+
+(* ---- over all reachable states (Proofs/SysProofs.v) ---- *)
+From GK.Proofs Require Import SysProofs.
+
+(* THE property, under the hypotheses that exclude the recorded finding F9b (no successful UpdateById of a
+   task's scheduled time between the scheduler's read of that task and its MarkAsDispatched): every accepted
+   trace of the repaired pipeline — any interleaving of user mutations, clock advances, faults, Step and Retry —
+   has no work-function start before the task's scheduled time *)
+Theorem C03_no_early_start : forall tr s,
+  srun sys_init tr = Some s -> srun_ok sys_init tr ->
+  postponed_in_window tr None [] = [] -> no_postpone_retry None tr -> c03_ok tr = true.
+Proof. exact c03_holds. Qed.
+Print Assumptions C03_no_early_start.
+
+(* the full statement is FALSE of the faithful model: the finding, as a replayable witness *)
+Definition C03_full : Prop := forall tr s, srun sys_init tr = Some s -> srun_ok sys_init tr -> c03_ok tr = true.
+Theorem C03_refuted : ~ C03_full.
+Proof.
+  intros H. destruct cex_retry_window_accepted as (_ & Hs & _ & Hv & _).
+  destruct (srun sys_init cex_retry_window) as [s|] eqn:E; [|discriminate Hs].
+  rewrite (H _ s E cex_retry_window_ok) in Hv. discriminate.
+Qed.
+Print Assumptions C03_refuted.
+
+Theorem C03_clock_monotone_runs : forall tr s s', srun s tr = Some s' -> inst (sy_now s) <= inst (sy_now s').
+Proof. exact now_monotone. Qed.
+Print Assumptions C03_clock_monotone_runs.
